@@ -160,7 +160,7 @@ func c10AltMenu(y *c10Sys, s *c10State, ev []string) []string {
 	}
 	var out []string
 	for _, e := range ev {
-		if e == "commit" || e == "income:1000000007" || e == "auth:A2:P8:500" {
+		if e == "commit" || e == "income:1000000007" || e == "auth:A2:P8:1000" {
 			out = append(out, e)
 		}
 	}
@@ -206,7 +206,7 @@ func c10AltExplore(y *c10Sys) []string {
 	if r.Thorough() {
 		spell = "P8 and P1 each in upper-case and mixed-case hex; every call that takes a peer key (authorize, unauthorize, quit, changeMaxAuthorization, setFeePercentage, setPeerCost, blackNode) with every spelling"
 	}
-	return []string{fmt.Sprintf("alt-key menu (commit, income, auth:A2:P8:500 + registration of a pooled key in another spelling: %s) to depth %d from %s", spell, depth, strings.Join(names, ","))}
+	return []string{fmt.Sprintf("alt-key menu (commit, income, auth:A2:P8:1000 + registration of a pooled key in another spelling: %s) to depth %d from %s; in every state of every search: no two pool entries whose keys decode to the same bytes", spell, depth, strings.Join(names, ","))}
 }
 
 // c10AltStep records what became of a call made with another spelling.
